@@ -1,5 +1,6 @@
 import BareProofs.C07Lemmas
 import BareProofs.C18
+import BareProofs.C01Parse
 
 /-!
 # C07 — lowered code is well formed: schema-valid with intact, unique jump targets
@@ -7,9 +8,9 @@ import BareProofs.C18
 All theorems are about the recursive *spec* lowering `Lower.lowerS / lowerB / lowerElse` / `Lower.lowerProgram`
 (BareModel/Lower.lean), for **all** structured programs (`SStmt`, unbounded nesting depth, any number of functions), all
 values `i` of the script-wide label counter and all enclosing-loop label pairs `lp`.  The line-at-a-time mirror
-`Lower.parseLines ∘ renderB` is tied to the spec lowering by the correspondence streams of `harness/props/C07.py`
-(`spec` and `mirror` of the driver op "lower" against `parse_script`) and by `C01.parseLines_render` (T1 of C01); the only
-theorem below that talks about the mirror directly is `parseLines_include_nonempty`.
+`Lower.parseLines ∘ renderB` equals the spec lowering by `C01.parseLines_render` (T1 of C01) — `parsed_well_formed` at the end of
+this file transfers everything to what the parser returns — and both are tied to `parse_script` by the correspondence streams of
+`harness/props/C07.py` (`spec` and `mirror` of the driver op "lower").
 
 Vocabulary (definitions in `C07Lemmas.lean`):
 * a **scope** of a statement list `P` is `P` itself or, recursively, the body of a `function` statement (`scopes P`);
@@ -25,8 +26,8 @@ Vocabulary (definitions in `C07Lemmas.lean`):
 
 **`WellNested` is not needed by any theorem about the spec lowering**: `lowerS none .brk` emits no statement at all, and a
 nested `function` is lowered with `lp = none` like any other, so nothing can escape a scope.  `WellNested` is the hypothesis of
-`C01.parseLines_render` (the parser *rejects* the other programs); it is defined here, shown inhabited, and is a hypothesis of
-the `…_parsed` corollaries that transfer the results to `parseLines`.
+`C01.parseLines_render` (the parser *rejects* the other programs, `C01.parse_rejects_ill_nested`); it is defined here, shown
+inhabited and equivalent to C01's (`wellNested_iff`), and is a *conclusion* of `parsed_well_formed`.
 
 **Schema validity (remark).**  The model's `Stmt` / `Expr` types *are* the published schema (`model.py` BARE_SCRIPT_TYPES): one
 constructor per union member, one field per struct member, `BinOp`/`UnOp` one constructor per enum value — every `List Stmt`
@@ -331,15 +332,6 @@ example : ∀ sc ∈ scopes (lowerProgram demoRaw), ∀ t ∈ jumpsOf sc,
     (∃ n, Machine.findLabel sc t = some n) ∧ Machine.jumpTarget sc [] t ≠ none :=
   no_unknown_label_error demoRaw (by decide) (by decide)
 
-/-- transfer to the line-at-a-time parser: `h` is the conclusion of `C01.parseLines_render` (T1 of C01, hypothesis
-`WellNested B`); until that theorem is available the equation is checked by the correspondence streams -/
-theorem no_unknown_label_error_parsed (B : List SStmt) (_hw : WellNested B) (hn : NoReserved B) (hu : UserJumpsResolved B)
-    (P : List Stmt) (hP : parseLines (renderB B) = .ok P) (h : parseLines (renderB B) = .ok (lowerProgram B)) :
-    ∀ sc ∈ scopes P, ∀ t ∈ jumpsOf sc, ∃ n, Machine.findLabel sc t = some n := by
-  rw [h] at hP
-  cases hP
-  exact fun sc hsc t ht => (no_unknown_label_error B hn hu sc hsc t ht).1
-
 /-! ### lint -/
 
 /-- a scope is *label-clean*: labels pairwise distinct, every label the target of a jump of the scope, every jump of the
@@ -573,5 +565,66 @@ theorem schema_valid :
 
 example : incOkB demo = true := by decide
 example : parseLines (renderB demo) = .ok (lowerProgram demo) := by rfl
+
+/-! ## transfer to the line-at-a-time parser (`C01.parseLines_render`) -/
+
+mutual
+theorem wnS_eq : ∀ (s : SStmt) (a b : Bool), wnS a b s = C01.wnS a b s
+  | .expr _ _, a, b => by simp [wnS, C01.wnS]
+  | .ret _, a, b => by simp [wnS, C01.wnS]
+  | .label _, a, b => by simp [wnS, C01.wnS]
+  | .jump _ _, a, b => by simp [wnS, C01.wnS]
+  | .include _, a, b => by simp [wnS, C01.wnS]
+  | .brk, a, b => by simp [wnS, C01.wnS]
+  | .cont, a, b => by simp [wnS, C01.wnS]
+  | .func _ _ _ _ _ f, a, b => by simp [wnS, C01.wnS, wnB_eq f]
+  | .ite c t e, a, b => by simp [wnS, C01.wnS, wnB_eq t, wnE_eq e]
+  | .while c f, a, b => by simp [wnS, C01.wnS, wnB_eq f]
+  | .for v ix vals f, a, b => by simp [wnS, C01.wnS, wnB_eq f]
+theorem wnB_eq : ∀ (B : List SStmt) (a b : Bool), wnB a b B = C01.wnB a b B
+  | [], a, b => by simp [wnB, C01.wnB]
+  | s :: ss, a, b => by simp [wnB, C01.wnB, wnS_eq s, wnB_eq ss]
+theorem wnE_eq : ∀ (e : SElse) (a b : Bool), wnE a b e = C01.wnE a b e
+  | .none, a, b => by simp [wnE, C01.wnE]
+  | .els f, a, b => by simp [wnE, C01.wnE, wnB_eq f]
+  | .elif c t e, a, b => by simp [wnE, C01.wnE, wnB_eq t, wnE_eq e]
+end
+
+/-- `C07.WellNested` is the hypothesis of `C01.parseLines_render` -/
+theorem wellNested_iff (B : List SStmt) : WellNested B ↔ C01.WellNested B := by
+  simp [WellNested, C01.WellNested, wnB_eq]
+
+/-- **parsed_well_formed.**  Whatever the line-at-a-time parser (the mirror of `parse_script`: `label_defs` stack, counter,
+per-function floor, in-place re-targeting, `hasContinue` flag) returns for the rendered lines of a structured program that does
+not use the reserved prefix and whose raw labels/jumps (if any) are unique, used and resolved: the program was well nested, the
+result *is* the recursive lowering (C01 T1), and therefore every scope of the result is label-clean, every jump of every scope
+is found by `findLabel`, lint emits no label warning, and no include list is empty.  (`FidsInOrder` / `NoAdjacentIncludes` are
+C01's normal-form conditions on the structured representation: function ids in source order, adjacent include nodes merged.) -/
+theorem parsed_well_formed (B : List SStmt) (P : List Stmt) (hf : C01.FidsInOrder B) (hi : C01.NoAdjacentIncludes B)
+    (hn : NoReserved B) (hu : UserLabelsOK B) (hP : parseLines (renderB B) = .ok P) :
+    WellNested B ∧ P = lowerProgram B ∧
+      (∀ sc ∈ scopes P, ScopeClean sc) ∧
+      (∀ sc ∈ scopes P, ∀ t ∈ jumpsOf sc, ∃ n, Machine.findLabel sc t = some n) ∧
+      (∀ w ∈ Lint.lint P, isLabelW w = false) ∧
+      (∀ sc ∈ scopes P, Stmt.include [] ∉ sc) := by
+  have hw : C01.WellNested B := C01.wellNested_of_parse_ok B hP
+  have h1 := C01.parseLines_render B hw hf hi
+  rw [h1] at hP
+  cases hP
+  exact ⟨(wellNested_iff B).2 hw, rfl, lower_scopes_clean B hn hu,
+    fun sc hsc t ht => (no_unknown_label_error B hn hu.jumps sc hsc t ht).1,
+    no_label_lint B hn hu, parseLines_include_nonempty _ _ h1⟩
+
+/-- for well-nested purely structured code the parser succeeds and its output is well formed -/
+theorem parsed_well_formed_structured (B : List SStmt) (hw : WellNested B) (hf : C01.FidsInOrder B)
+    (hi : C01.NoAdjacentIncludes B) (hr : NoRaw B) :
+    parseLines (renderB B) = .ok (lowerProgram B) ∧
+      (∀ sc ∈ scopes (lowerProgram B), ScopeClean sc) ∧
+      (∀ sc ∈ scopes (lowerProgram B), ∀ t ∈ jumpsOf sc, ∃ n, Machine.findLabel sc t = some n) := by
+  have h1 := C01.parseLines_render B ((wellNested_iff B).1 hw) hf hi
+  exact ⟨h1, lower_scopes_clean B hr.noReserved hr.userLabelsOK, no_unknown_label_error_structured B hr⟩
+
+example : WellNested demo ∧ C01.FidsInOrder demo ∧ C01.NoAdjacentIncludes demo ∧ NoRaw demo := by decide
+example : C01.FidsInOrder demoRaw ∧ C01.NoAdjacentIncludes demoRaw ∧ NoReserved demoRaw ∧ UserLabelsOK demoRaw := by decide
 
 end C07
